@@ -445,6 +445,21 @@ func (cl *Cluster) processLocked(nc *NodeConn) {
 		if len(pc.Toks) > 0 {
 			pc.Fid = fmt.Sprintf("%s.%d.%s", pc.Toks[0].C, pc.Toks[0].I, pc.Toks[0].S)
 		}
+		if name == "mset" {
+			// each key must still be followed by the value the client paired it with
+			x := 0
+			for k := 1; k+1 < len(args) && x < len(pc.Toks); k, x = k+2, x+1 {
+				t := pc.Toks[x]
+				if args[k+1] != fmt.Sprintf("w|%s.%d.%d", t.C, t.I, t.J) {
+					pc.Toks[x].V = "badval"
+				}
+			}
+			if len(args)%2 == 0 {
+				for x := range pc.Toks {
+					pc.Toks[x].V = "badval"
+				}
+			}
+		}
 		ev := Event{Ev: "recv", N: nc.node.Name, Conn: nc.Id, K: name, Txt: args[0], Fid: pc.Fid, Toks: pc.Toks}
 		if cl.cfg.RawLog {
 			ev.Raw = hex.EncodeToString(raw)
